@@ -88,6 +88,17 @@ def make_b85(case, ctx):
         b = B85.from_xprv(xprv=rm.xprv(), testnet=False) if k % 2 else B85.from_xprv(rm.xprv())
     elif route == "wallet":
         b = BaseWallet(master=Prv(key=k.to_bytes(32, "big"), chain_code=c)).bip85
+    elif route in ("derived-node", "derived-node-wallet"):
+        # the BIP85 master is a node object the library derived itself: it has a live parent and siblings
+        top = Prv(key=k.to_bytes(32, "big"), chain_code=c)
+        walk = [84 + H, H, (k % 5) + H] if k % 2 else [k % 7]
+        try:
+            rm = R.derive(rm, walk)
+        except R.Invalid:
+            return rm, B85(master_node=top), None
+        top.ckd(44 + H)
+        node = top.derive_path(list(walk))
+        b = B85(master_node=node) if route == "derived-node" else BaseWallet(master=node).bip85
     else:
         b = PaperWallet.from_extended_key(rm.xprv(R.TPRV)).bip85
     return rm, b, log
@@ -101,6 +112,20 @@ def check_app(case, ctx):
     except R.Invalid:
         ctx.count("invalid-secret-skipped")
         return
+    if index % 3 == 0:
+        # the caller has parsed this very path string before (positional and keyword form) and edited the objects it got
+        from btc_hd_wallet.wallet_utils import Bip32Path
+        pstr = R.fmt_path(want_path, "m")
+        for f in (lambda: Bip32Path.parse(pstr), lambda: Bip32Path.parse(s=pstr)):
+            st_p, po = call(f)
+            if st_p == "ok":
+                for attr, val in (("account", H + 2), ("chain", H + 1), ("addr_index", H + 5), ("coin_type", H + 39), ("purpose", H + 44)):
+                    try:
+                        if getattr(po, attr, None) is not None:
+                            setattr(po, attr, val)
+                    except Exception:  # noqa: BLE001
+                        pass
+        ctx.count("path-string-parsed-and-edited-by-caller-first")
     st_, got = call(app_call, b, app, param, index, case.get("kwargs", True))
     what = "bip85 %s(param=%r, index=%d) master k=%#x via %s" % (app, param, index, case["k"], case.get("route", "direct"))
     if st_ == "exc":
@@ -128,7 +153,7 @@ MASTERS = [(1, b"\x00" * 32), (N - 1, b"\xff" * 32), (0x00FACE << 200, bytes(ran
 def enum_apps(tier):
     idxs = [0, 1, H - 1] if tier == "quick" else [0, 1, 2, H - 2, H - 1, 1000003]
     masters = MASTERS[:3] if tier == "quick" else MASTERS
-    routes = ["direct", "from_xprv", "wallet", "key33", "paper-tprv"]
+    routes = ["direct", "from_xprv", "wallet", "key33", "paper-tprv", "derived-node", "derived-node-wallet"]
     n = 0
     for app, params in PARAMS.items():
         for param in params:
@@ -145,7 +170,7 @@ def gen_apps(tier):
         return {"app": app, "param": params[p % len(params)], "index": index, "k": k, "c": c, "route": route, "kwargs": kw}
     return st.builds(mk, st.sampled_from(sorted(PARAMS)), st.integers(0, 1000),
                      S.normal_indexes(), S.scalars(), S.chain_codes(),
-                     st.sampled_from(["direct", "direct", "from_xprv", "wallet", "key33", "paper-tprv"]), st.booleans())
+                     st.sampled_from(["direct", "direct", "from_xprv", "wallet", "key33", "paper-tprv", "derived-node", "derived-node-wallet"]), st.booleans())
 
 
 def nt_app(case):
